@@ -64,6 +64,8 @@ type Report struct {
 	order       []string
 	obs         []Ob
 	seen        map[string]bool
+	impPrefix   string // while Import runs: rules with this prefix …
+	impTarget   string // … are recorded under this rule
 }
 
 func NewReport(prop, tier, verifDir string) *Report {
@@ -74,6 +76,9 @@ func NewReport(prop, tier, verifDir string) *Report {
 // Rule declares a rule, the statement it checks, and the least number of
 // instances it must match on the analysed tree (a rule matching nothing must not pass forever).
 func (r *Report) Rule(id, statement string, floor int) {
+	if r.impPrefix != "" && strings.HasPrefix(id, r.impPrefix) {
+		return
+	}
 	if _, ok := r.rules[id]; ok {
 		return
 	}
@@ -81,7 +86,23 @@ func (r *Report) Rule(id, statement string, floor int) {
 	r.order = append(r.order, id)
 }
 
+// Import runs a check that belongs to another property and records its obligations under one rule of this
+// report (the construct is prefixed with the original rule id).  Used where a structural necessary condition
+// of one property is also a necessary condition of another; the other property's explanation is not taken over.
+func (r *Report) Import(prefix, target, statement string, floor int, fn func()) {
+	r.Rule(target, statement, floor)
+	e, nd, as := r.Explanation, r.NotDecided, r.Assumptions
+	r.impPrefix, r.impTarget = prefix, target
+	fn()
+	r.impPrefix, r.impTarget = "", ""
+	r.Explanation, r.NotDecided, r.Assumptions = e, nd, as
+}
+
 func (r *Report) add(rule, fn, construct, pos string, st Status, fact string) {
+	if r.impPrefix != "" && strings.HasPrefix(rule, r.impPrefix) {
+		construct = rule + ":" + construct
+		rule = r.impTarget
+	}
 	rs, ok := r.rules[rule]
 	if !ok {
 		r.Rule(rule, "(undeclared rule)", 0)
